@@ -1,6 +1,11 @@
 //! C04 A swarm of replicas is eventually consistent despite loss, dups and reordering.
 
-use iroh_docs::{sync::InsertError, verif, ContentStatus, SignedEntry};
+use iroh_docs::{
+    actor::{OpenOpts, SyncHandle},
+    store::Store,
+    sync::InsertError,
+    verif, ContentStatus, SignedEntry,
+};
 use proptest::{collection::vec, prelude::*};
 use serde::{Deserialize, Serialize};
 
@@ -8,6 +13,8 @@ use crate::{
     common::*,
     engine::{idx, Ctx, Outcome, Prop, Tier},
     gen::{pools, Pools},
+    act,
+    netsess::net_session,
     wire::run_session_clocks,
 };
 
@@ -35,6 +42,10 @@ pub struct Case {
     /// order of the replicas along the spanning path of the closing phase, as sort keys
     pub path: Vec<u16>,
     pub extra_pairs: Vec<(u8, u8)>,
+    /// every replica is a store actor; writes, deliveries and sessions go through `SyncHandle`, sessions through the real
+    /// initiator / acceptor over in-memory streams cut by a proxy
+    #[serde(default)]
+    pub via_actors: bool,
 }
 
 impl Prop for C04 {
@@ -67,19 +78,33 @@ impl Prop for C04 {
             3 => (r(), r(), prop_oneof![3 => 0u8..8, 1 => Just(255u8)]).prop_map(|(i, j, m)| Step::Session { i, j, m }),
             1 => r().prop_map(|r| Step::Restart { r }),
         ];
-        (2u8..=5, vec(prop::bool::weighted(0.25), 5), vec(-290i16..=290, 5), pools(6), vec(step, 1..=max), vec(any::<u16>(), 5), vec((r(), r()), 0..=3))
-            .prop_map(|(n, files, offsets, pools, steps, path, extra_pairs)| Case { n, files, offsets, pools, steps, path, extra_pairs })
+        (2u8..=5, vec(prop::bool::weighted(0.25), 5), vec(-290i16..=290, 5), pools(6), vec(step, 1..=max), vec(any::<u16>(), 5), vec((r(), r()), 0..=3), prop::bool::weighted(0.2))
+            .prop_map(|(n, files, offsets, pools, mut steps, path, extra_pairs, via_actors)| {
+                if via_actors {
+                    // an actor round trip per replica per step: keep these histories shorter
+                    steps.truncate(40);
+                }
+                Case { n, files, offsets, pools, steps, path, extra_pairs, via_actors }
+            })
             .boxed()
     }
 
     fn check(ctx: &mut Ctx, c: &Case) -> Outcome {
-        let mut o = Outcome::default();
-        let r = run(ctx, c, &mut o);
-        verif::set_clock(None);
-        if let Err(e) = r {
-            o.fail("C04/harness-error", e);
+        let mut attempts = 0;
+        loop {
+            attempts += 1;
+            let mut o = Outcome::default();
+            let r = if c.via_actors { run_actors(ctx, c, &mut o) } else { run(ctx, c, &mut o) };
+            verif::set_clock(None);
+            match r {
+                // a session that does not finish is C10's business; here it only counts when it reproduces three times
+                Err(e) if e == "WATCHDOG" && attempts < 3 => continue,
+                Err(e) if e == "WATCHDOG" => o.fail("C04/session-hangs", "a session between two store actors did not finish within 20 s in three consecutive runs of this case"),
+                Err(e) => o.fail("C04/harness-error", e),
+                Ok(()) => {}
+            }
+            return o;
         }
-        o
     }
 
     fn assumptions() -> Vec<String> {
@@ -265,6 +290,219 @@ fn run(ctx: &mut Ctx, c: &Case, o: &mut Outcome) -> R<()> {
         st.cleanup();
     }
     Ok(())
+}
+
+/// The same histories with every replica behind a store actor.
+fn run_actors(ctx: &mut Ctx, c: &Case, o: &mut Outcome) -> R<()> {
+    o.class("via-actors");
+    let n = c.n.clamp(2, 5) as usize;
+    let keys = c.pools.keys();
+    let authors = c.pools.authors();
+    let nssec = namespace(c.pools.ns).clone();
+    let ns = nssec.id();
+    let mut paths: Vec<Option<std::path::PathBuf>> = vec![];
+    for i in 0..n {
+        paths.push(if c.files.get(i).copied().unwrap_or(false) { Some(ctx.fresh_path("swarm")) } else { None });
+    }
+    let clock = |r: usize, step: usize| -> u64 { (T0 as i64 + 1_000_000 * c.offsets.get(r).copied().unwrap_or(0) as i64 + 10 + step as i64) as u64 };
+    let authors2 = authors.clone();
+    let nssec2 = nssec.clone();
+    let start = move |store: Store| {
+        let authors = authors2.clone();
+        let nssec = nssec2.clone();
+        async move {
+            let h = act::spawn(store);
+            es(h.import_namespace(nssec.clone().into()).await)?;
+            for a in &authors {
+                es(h.import_author(author(*a).clone()).await)?;
+            }
+            es(h.open(nssec.id(), OpenOpts::default().sync()).await)?;
+            Ok::<SyncHandle, String>(h)
+        }
+    };
+    let res: R<()> = ctx.rt.block_on(async {
+        let mut hs: Vec<SyncHandle> = vec![];
+        for p in &paths {
+            let store = match p {
+                Some(p) => es(Store::persistent(p))?,
+                None => Store::memory(),
+            };
+            hs.push(start(store).await?);
+        }
+        let mut written: Vec<SignedEntry> = vec![];
+        let mut delivered_count: Vec<Vec<u32>> = vec![];
+        let mut deletion_then_older_under_prefix = false;
+        let mut cut_session = false;
+        'steps: for (si, s) in c.steps.iter().enumerate() {
+            match s {
+                Step::Write { r, a, k, .. } | Step::Delete { r, a, k } => {
+                    let ri = *r as usize % n;
+                    let cc = if let Step::Write { c, .. } = s { *c } else { 0 };
+                    let now = clock(ri, si);
+                    verif::set_clock(Some(now));
+                    let au = authors[idx(*a, authors.len())];
+                    let key = keys[idx(*k, keys.len())].clone();
+                    let e = sign(&nssec, &ESpec { a: au, k: key.clone(), t: now, c: cc });
+                    if written.iter().any(|w| w.author() == e.author() && w.content_len() == 0 && key.starts_with(w.key()) && w.timestamp() > now) {
+                        deletion_then_older_under_prefix = true;
+                    }
+                    let (hash, len) = content(cc);
+                    let res = if cc == 0 {
+                        hs[ri].delete_prefix(ns, author(au).id(), key.clone().into()).await.map(|_| ())
+                    } else {
+                        hs[ri].insert_local(ns, author(au).id(), key.clone().into(), hash, len).await
+                    };
+                    match res {
+                        Ok(()) => {
+                            written.push(e);
+                            delivered_count.push(vec![0; n]);
+                        }
+                        Err(err) => {
+                            let newer = matches!(err.downcast_ref::<InsertError>(), Some(InsertError::NewerEntryExists)) || format!("{err:#}").contains("newer entry");
+                            if !newer {
+                                return Err(format!("local write through the actor failed: {err:#}"));
+                            }
+                        }
+                    }
+                }
+                Step::Deliver { r, e } => {
+                    if written.is_empty() {
+                        continue;
+                    }
+                    let ri = *r as usize % n;
+                    let ei = idx(*e, written.len());
+                    verif::set_clock(Some(clock(ri, si)));
+                    if let Err(err) = hs[ri].insert_remote(ns, written[ei].clone(), [ri as u8; 32], ContentStatus::Missing).await {
+                        let newer = matches!(err.downcast_ref::<InsertError>(), Some(InsertError::NewerEntryExists)) || format!("{err:#}").contains("newer entry");
+                        if !newer {
+                            o.fail("C04/honest-entry-rejected", format!("step {si}: delivering {} to replica {ri} through the actor: {err:#}", describe(&written[ei])));
+                            break 'steps;
+                        }
+                    }
+                    delivered_count[ei][ri] += 1;
+                }
+                Step::Session { i, j, m } => {
+                    let (a, b) = (*i as usize % n, *j as usize % n);
+                    if a == b {
+                        continue;
+                    }
+                    let limit = if *m == 255 { None } else { Some(*m as usize) };
+                    let t = net_session(&hs[a], &hs[b], ns, limit, Some((clock(a, si), clock(b, si)))).await?;
+                    o.count("sessions_through_the_real_codec", 1);
+                    if t.cut {
+                        cut_session = true;
+                        o.class("session-cut");
+                    } else if t.alice.is_err() || t.bob.is_err() {
+                        o.fail("C04/uncut-session-failed", format!("step {si}: session {a}->{b} without a cut: initiator {:?}, acceptor {:?}", t.alice.as_ref().map(|_| "ok"), t.bob));
+                        break 'steps;
+                    }
+                }
+                Step::Restart { r } => {
+                    let ri = *r as usize % n;
+                    // stop the actor; it hands the store back; a file-backed store is dropped and opened again from its path
+                    let store = es(hs[ri].shutdown().await)?;
+                    let store = match &paths[ri] {
+                        Some(p) => {
+                            drop(store);
+                            es(Store::persistent(p))?
+                        }
+                        None => store,
+                    };
+                    hs[ri] = start(store).await?;
+                    o.class("restart");
+                }
+            }
+            for (ri, h) in hs.iter().enumerate() {
+                let d = act::dump(h, ns).await?;
+                if let Some(bad) = d.iter().find(|e| !written.contains(e)) {
+                    o.fail("C04/entry-nobody-wrote", format!("step {si} {:?}: replica {ri} holds {} which no replica wrote", s, describe(bad)));
+                    break 'steps;
+                }
+            }
+        }
+        if !o.failed() {
+            let mut order: Vec<usize> = (0..n).collect();
+            order.sort_by_key(|i| (c.path.get(*i).copied().unwrap_or(0), *i));
+            let mut pairs: Vec<(usize, usize)> = order.windows(2).map(|w| (w[0], w[1])).collect();
+            for (a, b) in &c.extra_pairs {
+                let (a, b) = (*a as usize % n, *b as usize % n);
+                if a != b {
+                    pairs.push((a, b));
+                }
+            }
+            let end = c.steps.len() + 1;
+            let mut sweeps = 0;
+            'sweeps: loop {
+                sweeps += 1;
+                let mut moved = 0usize;
+                for (a, b) in &pairs {
+                    let t = net_session(&hs[*a], &hs[*b], ns, None, Some((clock(*a, end), clock(*b, end)))).await?;
+                    o.count("sessions_through_the_real_codec", 1);
+                    match (&t.alice, &t.bob) {
+                        (Ok(oa), Ok(())) => {
+                            if oa.num_sent != t.bob_out.num_recv || oa.num_recv != t.bob_out.num_sent {
+                                o.fail("C04/closing-session-counters", format!("pair ({a},{b}): initiator sent {} recv {}, acceptor sent {} recv {}", oa.num_sent, oa.num_recv, t.bob_out.num_sent, t.bob_out.num_recv));
+                                break 'sweeps;
+                            }
+                            moved += oa.num_recv + t.bob_out.num_recv;
+                        }
+                        (ra, rb) => {
+                            o.fail("C04/closing-session-does-not-finish", format!("pair ({a},{b}): initiator {:?}, acceptor {:?}", ra.as_ref().map(|_| "ok"), rb));
+                            break 'sweeps;
+                        }
+                    }
+                }
+                if moved == 0 {
+                    break;
+                }
+                if sweeps > n + 2 {
+                    o.fail("C04/no-quiescence", format!("after {sweeps} sweeps over {:?} entries are still moving ({moved} in the last sweep)", pairs));
+                    break;
+                }
+            }
+            o.count("closing_sweeps", sweeps as u64);
+            if !o.failed() {
+                let want = Model::merge(written.iter()).dump();
+                for (ri, h) in hs.iter().enumerate() {
+                    let d = act::dump(h, ns).await?;
+                    if d != want {
+                        o.fail(
+                            "C04/not-converged",
+                            format!("(actors) after the closing sweeps over {:?} replica {ri} holds {} but the merge of all local writes is {}", pairs, describe_all(&d), describe_all(&want)),
+                        );
+                        break;
+                    }
+                }
+            }
+        }
+        let lost_or_dup = delivered_count.iter().any(|per| per.iter().any(|x| *x >= 2) || per.iter().all(|x| *x == 0));
+        if n >= 3 && deletion_then_older_under_prefix && cut_session && lost_or_dup {
+            o.nontrivial = true;
+        }
+        if deletion_then_older_under_prefix {
+            o.class("deletion-then-late-older-write-under-prefix");
+        }
+        // the stores handed back by the actors are self-consistent
+        for (ri, h) in hs.iter().enumerate() {
+            let mut store = es(h.shutdown().await)?;
+            if !o.failed() {
+                if let Err(e) = self_consistent(&mut store, ns) {
+                    o.fail("C04/consistency", format!("(actors) replica {ri}: {e}"));
+                }
+            }
+        }
+        Ok(())
+    });
+    for p in paths.into_iter().flatten() {
+        let _ = std::fs::remove_file(p);
+    }
+    o.class(match n {
+        2 => "replicas/2",
+        3 => "replicas/3",
+        4 => "replicas/4",
+        _ => "replicas/5",
+    });
+    res
 }
 
 fn two(stores: &mut [Option<AnyStore>], a: usize, b: usize) -> (&mut AnyStore, &mut AnyStore) {
